@@ -44,6 +44,7 @@ PROPS["C09"] = {
         {"name": "C09_index_alpha_from_source", "status": "proved", "statement": "index_alpha as TRANSLATED from argon2.rs this run (reference-area size by pass / slice / lane / index, the two 64-bit multiplications, start position, modulo; u32 arithmetic wrapping as in the release build) = the model's index_alpha, for all arguments"},
         {"name": "C09_fblamka_from_source", "status": "proved", "statement": "fblamka as translated from argon2.rs this run = the model's, for all x, y"},
         {"name": "C09_permutation_from_source", "status": "proved", "statement": "the permutation inside fill_block as TRANSLATED from argon2.rs this run (g closure statements with fblamka / rotation amounts, the eight g calls, the 2 x 8 x 16 index expressions) = the model's fill_block, for all blocks"},
+        {"name": "C09_pwhash_output_length", "status": "proved", "statement": "for every accepted parameter set crypto_pwhash's output has exactly the requested length (so the length comparison PwHash::verify makes first refuses nothing the byte comparison would accept)"},
         {"name": "C09_verify_iff", "status": "proved", "statement": "PwHash::verify = Ok iff the declared hash length is the stored hash's length and re-hashing the offered password with the stored salt and config gives exactly the stored bytes (so it accepts the password that produced the hash; rejecting every other password is Argon2 collision resistance)"},
         {"name": "C09_rfc9106_argon2id", "status": "proved", "statement": "TEST (vm_compute): the model reproduces RFC 9106 section 5.3 (t=3, m=32, p=4, secret, associated data)"},
         {"name": "C09_rfc9106_argon2i", "status": "proved", "statement": "TEST (vm_compute): the model reproduces RFC 9106 section 5.2"},
